@@ -23,6 +23,7 @@ import (
 	"encoding/binary"
 	"encoding/hex"
 	"encoding/json"
+	"errors"
 	"fmt"
 	"io"
 	"net"
@@ -42,6 +43,18 @@ import (
 )
 
 func init() { props["C08"] = runShared }
+
+type deadWriteConn struct{ net.Conn }
+
+func (deadWriteConn) Write(b []byte) (int, error) { return 0, errors.New("c08dead: the transport refuses the write") }
+
+func init() {
+	client.ConnFactories["c08dead"] = func(cl *client.Client, network, address string) (net.Conn, error) {
+		a, b := net.Pipe()
+		go func() { io.Copy(io.Discard, b) }()
+		return deadWriteConn{a}, nil
+	}
+}
 
 // ---------- the gate in front of the transport ----------
 type wArr struct {
@@ -513,6 +526,22 @@ func wRunCase(o *common.Out, id string, c wCase, r *common.Rand) {
 				h[2] |= 0x20
 				starters = append(starters, func() { cl.Go(ctx, "Sd08", "Echo", args, nil, make(chan *client.Call, 1)) })
 				pred[i] = wFrame{hdr: h, path: "Sd08", method: "Echo", meta: m, pre: fmt.Sprintf(`{"Id":%d,"Pad":"`, i), n: w.pad, suf: `"}`}
+			case "X":
+				// a call on another client whose transport refuses the write: its frame is encoded into a pooled buffer,
+				// the write fails, the buffer goes back - nothing reaches the connection under test
+				var xh [12]byte
+				xh[0], xh[3] = 8, 1<<4
+				starters = append(starters, func() {
+					dcl := client.NewClient(opt)
+					if err := dcl.Connect("c08dead", "x"); err != nil {
+						return
+					}
+					c2, cancel := context.WithTimeout(ctx, 2*time.Second)
+					dcl.Call(c2, "Sd08", "Echo", args, &BReply{})
+					cancel()
+					dcl.Close()
+				})
+				pred[i] = wFrame{hdr: xh, path: "Sd08", method: "Echo", meta: m, pre: fmt.Sprintf(`{"Id":%d,"Pad":"`, i), n: w.pad, suf: `"}`}
 			case "S":
 				// a raw message with its own sequence number (outside the range the client assigns)
 				var rh [12]byte
@@ -548,7 +577,7 @@ func wRunCase(o *common.Out, id string, c wCase, r *common.Rand) {
 		i, _ := strconv.Atoi(op[1:])
 		switch op[0] {
 		case 's':
-			if c.side == "cli" && c.ws[i].kind != "S" {
+			if c.side == "cli" && c.ws[i].kind != "S" && c.ws[i].kind != "X" {
 				// the client numbers its calls in the order they are issued
 				binary.BigEndian.PutUint64(pred[i].hdr[4:], uint64(clientSeq))
 				clientSeq++
@@ -708,7 +737,7 @@ func genWCase(r *common.Rand, tier string) wCase {
 		if c.side == "srv" {
 			k = []string{"R", "R", "C", "C", "H", "H", "P", "E", "X", "Z"}[r.Intn(10)]
 		} else {
-			k = []string{"G", "G", "G", "O", "S"}[r.Intn(5)]
+			k = []string{"G", "G", "G", "O", "S", "X"}[r.Intn(6)]
 		}
 		pad := sizes[r.Intn(len(sizes))]
 		if r.Chance(50) {
@@ -791,6 +820,18 @@ func runShared(r *common.Rand, tier string, o *common.Out, replay string) {
 					wRunCase(o, fmt.Sprintf("sys%d", n), c, r)
 					n++
 				}
+			}
+		}
+	}
+	// the client side after a write the transport refused (on another client: the frame pool is the process's)
+	for _, k1 := range []string{"G", "O", "S"} {
+		for _, k2 := range []string{"G", "O", "S"} {
+			for _, pad := range []int{100, 700, 3000} {
+				c := wCase{side: "cli", oneP: true,
+					ws:  []wWriter{{kind: "X", pad: pad}, {kind: k1, pad: pad + 10}, {kind: k2, pad: pad - 10}, {kind: "G", pad: pad}},
+					ops: []string{"s0", "s1", "s2", "r2", "s3", "r1", "r3"}}
+				wRunCase(o, fmt.Sprintf("sys%d", n), c, r)
+				n++
 			}
 		}
 	}
